@@ -8,6 +8,11 @@ Case kinds
   recv  one raw JSON frame fed through run_async into a fresh LanguageServer endpoint
         (classification rows, generic objects, the finding classes, malformed frames).
   d2o   pygls.protocol._dict_to_object called directly.
+  btrip built-ins ON: for every method LanguageServerProtocol handles itself (except exit) a user
+        feature is registered for the same method on a fresh LanguageServer; generated instances
+        (for initialize: rootPath / rootUri / workspaceFolders absent / null / set in all
+        combinations) arrive through run_async; what the USER handler is given - on entry and after
+        the frame - must equal the lsprotocol converter alone on the captured wire JSON.
 Model / reference: Model/Registry.v, Spec/RegistrySpec.v through bin/c13_driver; the reflected
 tables (gen_c13) are written to coq/Gen/*.v and work/C13/tables.txt on every run."""
 import asyncio, collections, copy, enum, json, keyword, logging, os, random, threading, typing
@@ -364,7 +369,7 @@ class C13(core.Property):
                    "reply_structured_as_requested", "generic_paths_preserved", "generic_leaves_reachable", "generic_handler_gets_object",
                    "spec_leaves_sound", "helpers_ok_sound", "helpers_ok_current", "trip_reference_agrees",
                    "C13_reference_agrees", "C13_partial", "C13_refuted_type_name", "C13_refuted_nested_jsonrpc",
-                   "C13_refuted_array_params", "C13_refuted_kind_mismatch", "C13_refuted", "C13_nonvacuous", "C13_falsy_ids"]
+                   "C13_refuted_array_params", "C13_refuted_kind_mismatch", "C13_refuted", "C13_nonvacuous", "C13_falsy_ids", "user_feature_gets_params"]
     coq_targets = ["Props/C13.vo", "Extract/ExtractC13.vo"]
     rule = ("trip: every helper of the regenerated table x n seeded instances of its params (and result) type; "
             "non-trivial = the params instance has >= 1 optional/union/enum/sequence field populated (or the method "
@@ -471,6 +476,7 @@ class C13(core.Property):
             for _ in range(n):
                 cases.append({"k": "trip", "side": h["side"], "helper": h["name"], "seed": rng.randrange(10 ** 9)})
         cases.extend(self._recv_cases(chk))
+        cases.extend(self._btrip_cases(chk))
         for _ in range(chk.n(10000, 40000)):
             cases.append({"k": "d2o", "j": self._rjson(rng, rng.choice([0, 0, 0, 1, 2]), top=True)})
         for c in cases:
@@ -632,6 +638,137 @@ class C13(core.Property):
                 add({"jsonrpc": J, "id": own[1], "method": meth, "params": params}, [own], malformed=True)
         return out
 
+    # ---- built-ins ON: a user feature registered for a method pygls also handles itself ----
+    def _builtin_methods(self):
+        from pygls.lsp.server import LanguageServer
+        t = self._types()
+        s = LanguageServer("c13-b", "1", converter_factory=lambda: self._conv())
+        return [m for m in sorted(s.protocol.fm.builtin_features) if m != t.EXIT and m in t.METHOD_TO_TYPES]
+
+    def _btrip_cases(self, chk):
+        rng = chk.rng
+        out = []
+        for m in self._builtin_methods():
+            variants = [None]
+            if m == "initialize":
+                # the optional / deprecated members the built-in reads, in all combinations
+                variants = [{"root_path": rp, "root_uri": ru, "workspace_folders": wf}
+                            for rp in ("absent", None, "/work/project", "rel/dir")
+                            for ru in (None, "file:///work/uri")
+                            for wf in ("absent", None, [], [{"uri": "file:///w1", "name": "w1"}])]
+            for v in variants:
+                for _ in range(chk.n(2 if v else 12, 6 if v else 120)):
+                    c = {"k": "btrip", "method": m, "seed": rng.randrange(10 ** 9)}
+                    if v: c["force"] = v
+                    out.append(c)
+        return out
+
+    def _conv(self):
+        from pygls.protocol import default_converter
+        if not hasattr(self, "_shared_conv"):
+            self._shared_conv = default_converter()
+        return self._shared_conv
+
+    def _btrip_wire(self, c):
+        """(setup frames, the frame under test) as wire JSON, from seeded instances"""
+        import attrs
+        t = self._types()
+        m = c["method"]
+        msg, res, par, _o = t.METHOD_TO_TYPES[m]
+        is_req = "id" in {f.name for f in attrs.fields(msg)}
+        U, NB = "file:///c13/doc.txt", "file:///c13/book.ipynb"
+        params = None
+        for attempt in range(30):
+            g = Gen(random.Random(c["seed"] + 7919 * attempt))
+            params = g.gen(par) if par is not None else None
+            f = c.get("force")
+            if f:
+                kw = {k: v for k, v in f.items() if v != "absent"}
+                if kw.get("workspace_folders"):
+                    kw["workspace_folders"] = [t.WorkspaceFolder(**w) for w in kw["workspace_folders"]]
+                for k in f:
+                    if f[k] == "absent": kw[k] = None
+                params = attrs.evolve(params, **kw)
+            if m == t.WORKSPACE_EXECUTE_COMMAND:
+                params = attrs.evolve(params, command=CMD)
+            if m in (t.TEXT_DOCUMENT_DID_CHANGE, t.TEXT_DOCUMENT_DID_CLOSE):
+                params = attrs.evolve(params, text_document=attrs.evolve(params.text_document, uri=U))
+            if m == t.TEXT_DOCUMENT_DID_CHANGE:
+                # edits that a conforming client could send for the open text "ab\ncd\n"
+                ch = []
+                for x in params.content_changes:
+                    if hasattr(x, "range"):
+                        l0, c0 = g.rng.randint(0, 2), g.rng.randint(0, 3)
+                        x = attrs.evolve(x, range=t.Range(t.Position(l0, c0), t.Position(l0 + g.rng.randint(0, 1), c0 + g.rng.randint(0, 2))))
+                    ch.append(x)
+                params = attrs.evolve(params, content_changes=ch)
+            if m in (t.NOTEBOOK_DOCUMENT_DID_CHANGE, t.NOTEBOOK_DOCUMENT_DID_CLOSE):
+                params = attrs.evolve(params, notebook_document=attrs.evolve(params.notebook_document, uri=NB))
+            if m == t.NOTEBOOK_DOCUMENT_DID_CHANGE:
+                params = attrs.evolve(params, change=attrs.evolve(params.change, cells=None))
+            if m == t.NOTEBOOK_DOCUMENT_DID_CLOSE:
+                params = attrs.evolve(params, cell_text_documents=[])
+            try:
+                kw = {"id": 41} if is_req else {}
+                wire = self._fresh.unstructure(msg(method=m, params=params, jsonrpc="2.0", **kw))
+                self._fresh.structure(wire, msg)
+                break
+            except Exception:
+                continue
+        if f:
+            # "absent" = the member is not on the wire at all; None = explicit null where lsprotocol keeps it
+            for k, v in f.items():
+                ck = camel(k)
+                if v == "absent": wire["params"].pop(ck, None)
+                elif v is None: wire["params"][ck] = None
+        setup = []
+        if m not in (t.INITIALIZE,):
+            setup.append({"jsonrpc": "2.0", "id": 40, "method": "initialize",
+                          "params": {"capabilities": {}, "rootUri": "file:///c13", "processId": None}})
+        if m in (t.TEXT_DOCUMENT_DID_CHANGE, t.TEXT_DOCUMENT_DID_CLOSE):
+            setup.append({"jsonrpc": "2.0", "method": "textDocument/didOpen",
+                          "params": {"textDocument": {"uri": U, "languageId": "x", "version": 1, "text": "ab\ncd\n"}}})
+        if m in (t.NOTEBOOK_DOCUMENT_DID_CHANGE, t.NOTEBOOK_DOCUMENT_DID_CLOSE):
+            setup.append({"jsonrpc": "2.0", "method": "notebookDocument/didOpen",
+                          "params": {"notebookDocument": {"uri": NB, "notebookType": "n", "version": 1, "cells": []},
+                                     "cellTextDocuments": []}})
+        return setup, wire
+
+    async def _btrip(self, c):
+        from pygls.lsp.server import LanguageServer
+        from pygls.io_ import run_async
+        t = self._types()
+        m = c["method"]
+        setup, wire = self._btrip_wire(c)
+        s = LanguageServer("c13-b", "1", converter_factory=lambda: self._conv())
+        p = s.protocol
+        written, seen = [], []
+        class W:
+            def write(self, d): written.append(bytes(d))
+            def close(self): pass
+        p.set_writer(W())
+        s.report_server_error = lambda e, src: None
+        def user(*args):
+            seen.append((args[0], copy.deepcopy(args[0])))     # the object, and what it looked like on entry
+            return None
+        s.feature(m)(user)
+        s.command(CMD)(lambda *a: None)
+        reader = asyncio.StreamReader()
+        for w in setup + [wire]:
+            body = json.dumps(w).encode("utf-8")
+            reader.feed_data(b"Content-Length: %d\r\n\r\n" % len(body) + body)
+        reader.feed_eof()
+        await run_async(threading.Event(), reader, p, None, s._report_server_error)
+        for _ in range(3):
+            await asyncio.sleep(0)
+        tp = getattr(s, "_thread_pool", None)
+        if tp: tp.shutdown(wait=False)
+        expected = self._fresh.structure(copy.deepcopy(wire), t.METHOD_TO_TYPES[m][0]).params
+        if len(seen) != 1:
+            return [len(seen), None, None]
+        obj, entry = seen[0]
+        return [1, entry == expected, obj == expected]
+
     # ---------------- implementation ----------------
     def run_impl(self, chk, cases):
         logging.disable(logging.CRITICAL)
@@ -665,6 +802,8 @@ class C13(core.Property):
                         pair = None
                 elif c["k"] == "recv":
                     out[n] = await asyncio.wait_for(self._recv(c), 20)
+                elif c["k"] == "btrip":
+                    out[n] = await asyncio.wait_for(self._btrip(c), 20)
                 else:
                     out[n] = self._d2o(c)
             except Exception as ex:
@@ -907,6 +1046,8 @@ class C13(core.Property):
             return f"trip {self._hrow(self._helper_row(c))} {enc_json('c13-id')}"
         if k == "d2o":
             return "d2o " + enc_json(c["j"])
+        if k == "btrip":
+            return "builtin 1 1"
         sends = f"{len(c['sends'])}" + "".join(f" {enc_str(m)} {enc_json(i)}" for m, i in c["sends"])
         return f"recv {sends} {self._oracle_flag(c)} {enc_json(c['wire'])}"
 
@@ -936,6 +1077,12 @@ class C13(core.Property):
             guard = (not has_tn) and (not arr) and wf
             klass = F_A if has_tn else (F_C if arr else None)
             return {"M": M, "S": {"leaves": leaves}, "guard": guard, "klass": klass}
+        if k == "btrip":
+            # model: the user's feature is called once with the structured params, which the built-in
+            # cannot have written to; reference: the converter alone on the wire JSON (computed by
+            # the implementation side against the captured frame)
+            n, same, _order = T.int(), bool(T.int()), bool(T.int())
+            return {"M": [n, same, same], "S": [1, True, True], "guard": True, "klass": None}
         return self._recv_model(c, T)
 
     def _recv_model(self, c, T):
@@ -1061,7 +1208,7 @@ class C13(core.Property):
         return -1
 
     def satisfies(self, c, impl, S):
-        if c["k"] == "trip":
+        if c["k"] in ("trip", "btrip"):
             return impl == S
         if c["k"] == "d2o":
             return impl[0] == "ok" and leaves_hold(impl[1], S["leaves"])
@@ -1098,6 +1245,8 @@ class C13(core.Property):
     def nontrivial(self, c):
         if c["k"] == "trip":
             return c.get("pop", 0) >= 1
+        if c["k"] == "btrip":
+            return True
         v = c["j"] if c["k"] == "d2o" else c["wire"]
         def deep(x, d):
             if isinstance(x, dict):
@@ -1110,7 +1259,7 @@ class C13(core.Property):
         return deep(v, 0 if c["k"] == "recv" else 1)
 
     def shrink(self, c):
-        if c["k"] == "trip":
+        if c["k"] in ("trip", "btrip"):
             return
         key = "j" if c["k"] == "d2o" else "wire"
         def variants(v):
@@ -1172,6 +1321,7 @@ class C13(core.Property):
         d = collections.Counter()
         for c in cases:
             if c["k"] == "trip": d["trip/" + c["side"]] += 1
+            elif c["k"] == "btrip": d["builtin-on/" + c["method"]] += 1
             elif c["k"] == "recv": d["recv/" + (c.get("klass") or ("malformed" if c.get("malformed") else "stream"))] += 1
             else: d["d2o"] += 1
         return dict(d)
